@@ -8,7 +8,9 @@ package main
 
 import (
 	"crypto/sha256"
+	"fmt"
 	"math/big"
+	"sync"
 )
 
 var (
@@ -109,7 +111,29 @@ func addIsoRef(x1, y1, x2, y2 *big.Int) (*big.Int, *big.Int, bool) {
 }
 
 // h2cCert returns the certificate record and the square-ness classes of g(x1) for u0 (and u1).
+type certMemoEntry struct {
+	c   []kv
+	cls string
+}
+
+var certMemo sync.Map // the certificate depends on (msg, dst, ro) only; bursts repeat the same inputs
+
 func h2cCert(msg, dst []byte, ro bool) ([]kv, string) {
+	key := string(msg) + "\x00|" + string(dst) + map[bool]string{true: "|ro", false: "|nu"}[ro] + fmt.Sprint(len(msg))
+	if len(msg)+len(dst) < 2000 {
+		if v, ok := certMemo.Load(key); ok {
+			e := v.(certMemoEntry)
+			return e.c, e.cls
+		}
+	}
+	c, cls := h2cCertCompute(msg, dst, ro)
+	if len(msg)+len(dst) < 2000 {
+		certMemo.Store(key, certMemoEntry{c, cls})
+	}
+	return c, cls
+}
+
+func h2cCertCompute(msg, dst []byte, ro bool) ([]kv, string) {
 	empty := []byte{}
 	if len(dst) == 0 {
 		return []kv{{"q0x", empty}, {"q0y", empty}, {"q1x", empty}, {"q1y", empty}, {"rx", empty}, {"ry", empty}}, "nodst"
